@@ -98,6 +98,7 @@ package drpcwire
 //@   let n3 = vEncLen(uint64(len(fr.Data)))
 //@   let h = 1 + n1 + n2 + n3
 //@   ensures [len]     len(result) == len(buf) + h + len(fr.Data)
+//@   ensures [hrange]  1 <= n1 && n1 <= 10 && 1 <= n2 && n2 <= 10 && 1 <= n3 && n3 <= 10
 //@   ensures [prefix]  forall i int :: 0 <= i && i < len(buf) ==> result[i] == old(buf[i])
 //@   ensures [ctrl]    fr.Kind < 64 ==> result[len(buf)] == byte(fr.Kind) * 2 + ite(fr.Done, 1, 0) + ite(fr.Control, 128, 0)
 //@   ensures [stream]  vEncAt(result, len(buf) + 1, fr.ID.Stream, n1)
@@ -264,3 +265,56 @@ package drpcwire
 //@   ensures [deliver-geq] err == nil ==> idLeq(old(r.id), pkt.ID) && len(pkt.Data) <= max0(rdM(r))
 //@   ensures [C09.id-monotone] idLeq(old(r.id), r.id)
 //@   ensures [err-empty]   err != nil ==> len(pkt.Data) == 0 && idZero(pkt.ID)
+
+// ---- Writer: mu protects buf; empty is published atomically (1 iff bytes are pending).
+// Ghost counters (C07/C05/C01): "wrote" counts calls of the transport's Write made by this call.
+
+//@ monitor Writer.mu
+//@   protects buf, empty
+//@   atomic empty
+//@   invariant [empty]   (self.empty == 1) == (len(self.buf) > 0)
+//@   invariant [range]   self.empty <= 1
+//@   published [p-range] self.empty <= 1
+
+//@ func (*Writer).log
+//@   inline
+
+//@ func (*Writer).Empty
+//@   props C07 C01
+//@   ensures [flag] true
+
+//@ func (*Writer).Reset
+//@   props C07 C02
+//@   ensures [self] result == b
+
+// WriteFrame: the frame is appended to the buffer under the lock; the transport is written at most
+// once, under the lock, with the whole buffer; afterwards the buffer is empty; a Write error is
+// returned unchanged (and the buffered bytes are dropped).
+//@ func (*Writer).WriteFrame
+//@   props C07 C05 C01
+//@   requires b.w != nil
+//@   modifies allmem
+//@   ghost entry wrote = 0
+//@   ghost after:Write wrote = wrote + 1
+//@   ghost after:Write werr = ret1
+//@   ghost entry werr = nil
+//@   site Write assert [C07.whole-buffer] held(b.mu) && arg1 == b.buf && len(arg1) > 0 && wrote == 0
+//@   check [once]     wrote <= 1
+//@   check [err]      err == werr
+//@   check [noerr]    wrote == 0 ==> err == nil
+
+//@ func (*Writer).Flush
+//@   props C07 C05 C01
+//@   requires b.w != nil
+//@   ghost entry wrote = 0
+//@   ghost after:Write wrote = wrote + 1
+//@   ghost after:Write werr = ret1
+//@   ghost entry werr = nil
+//@   site Write assert [C07.whole-buffer] held(b.mu) && arg1 == b.buf && len(arg1) > 0 && wrote == 0
+//@   check [once]     wrote <= 1
+//@   check [err]      err == werr
+//@   check [noerr]    wrote == 0 ==> err == nil
+
+//@ func (*Writer).WritePacket
+//@   props C07 C18
+//@   requires b.w != nil
